@@ -383,7 +383,8 @@ Definition rect (nc : nat) (rows : list (list Z)) : Prop :=
 (* ====================================================================== *)
 (* Fields of a spikeglx.Reader that are computed once and then cached:
      file_bin            (switched by compress_file / decompress_file with keep_original=False)
-     nbytes              (set in __init__ only: file_bin.stat().st_size at construction)
+     nbytes              (file_bin.stat().st_size at construction, refreshed by decompress_file(keep_original=False);
+                          since aa7f63d a public attribute only: open() does not read it)
      meta.fileTimeSecs   (here as the sample count ns it implies; rewritten by open() on a mismatch)
      _raw                (np.memmap | mtscomp.Reader)
    Tree at 38d7b2f: decompress_file(keep_original=False) refreshes nbytes, resets _raw and
@@ -412,8 +413,8 @@ Definition r_init (w : rworld) (f : dfile) (ns0 : Z) : robj :=
 
 (* Reader.open():
      cbin: _raw = mtscomp.Reader; if _raw.shape != (ns, nc): (warn unless ignore_warnings); fileTimeSecs = shape[0] / fs
-     bin : if nc * ns * itemsize != self.nbytes:            <- cached nbytes
-               ftsec = file_bin.stat().st_size // (itemsize * nc) / fs     <- fresh size
+     bin : if nc * ns * itemsize != file_bin.stat().st_size:      <- current size (aa7f63d; nbytes is not read)
+               ftsec = file_bin.stat().st_size // (itemsize * nc) / fs
                warn; fileTimeSecs = ftsec
            _raw = np.memmap(shape=(ns, nc))   (ValueError when the file is shorter: None)  *)
 Definition r_open (w : rworld) (o : robj) : option robj :=
@@ -422,7 +423,7 @@ Definition r_open (w : rworld) (o : robj) : option robj :=
       if w_nch w =? o_ns o then Some (mkR DCbin (o_nbytes o) (o_ns o) RawMtscomp false)
       else Some (mkR DCbin (o_nbytes o) (w_nch w) RawMtscomp (negb (w_iw w)))
   | DBin =>
-      let mism := negb (w_nc w * o_ns o * 2 =? o_nbytes o) in
+      let mism := negb (w_nc w * o_ns o * 2 =? fsize w DBin) in
       let ns' := if mism then fsize w DBin / (2 * w_nc w) else o_ns o in
       if (0 <? ns') && (ns' * w_nc w * 2 <=? fsize w DBin)
       then Some (mkR DBin (o_nbytes o) ns' RawMemmap (mism && negb (w_iw w)))
